@@ -42,9 +42,12 @@ Definition split_head (a : lpattern) : phead * list pstep :=
   | (PkFunction f, TNode, []) :: r => (HdFn f, r)
   | r => (HdRel, r)
   end.
+(* IdKeyPattern ::= 'id' '(' Literal ')' | 'key' '(' Literal ',' Literal ')' *)
 Definition idkey_ok (f : expr) : bool :=
   match f with
-  | EFunc name args => ((str_eqb name kw_id || str_eqb name kw_key) && canon f && lit_ok f)%bool
+  | EFunc name args =>
+      (((str_eqb name kw_id && Nat.eqb (length args) 1) || (str_eqb name kw_key && Nat.eqb (length args) 2))
+       && canon f && forallb is_elit args)%bool
   | _ => false
   end.
 Definition canon_lp (a : lpattern) : bool :=
